@@ -15,7 +15,7 @@ inline std::string showKeys(const PtrMap& m) { std::string r = "{"; for (auto& k
 struct PoolRun {
     Run& R; xalanc::XalanDOMStringPool* p; PtrMap m;
     explicit PoolRun(Run& r) : R(r), p(0) {
-        R.apiClass = "XalanDOMStringPool"; R.apiMethods = "get,clear,size,getHashTable,XalanDOMStringPool";
+        R.apiClass = "XalanDOMStringPool";
         const Json& kn = R.plan.at("knobs");
         size_t block = (size_t)(kn.num("block", 2) & 63); if (!block) block = 1;
         size_t buckets = (size_t)(kn.num("buckets", 3) & 127); if (!buckets) buckets = 1;
@@ -59,7 +59,7 @@ struct PoolRun {
 struct HashTableRun {
     Run& R; xalanc::XalanDOMStringHashTable* t; size_t buckets; std::vector<std::unique_ptr<TmpStr> > owned; PtrMap first; size_t count;
     explicit HashTableRun(Run& r) : R(r), t(0), count(0) {
-        R.apiClass = "XalanDOMStringHashTable"; R.apiMethods = "insert,find,clear,size,bucketCount,getBucketCounts,XalanDOMStringHashTable";
+        R.apiClass = "XalanDOMStringHashTable";
         const Json& kn = R.plan.at("knobs");
         buckets = (size_t)(kn.num("buckets", 3) & 127); if (!buckets) buckets = 1;
         t = new xalanc::XalanDOMStringHashTable(R.mm, buckets, (size_t)(kn.num("bsize", 1) & 15));
@@ -99,7 +99,7 @@ struct HashTableRun {
 struct BitmapRun {
     Run& R; xalanc::XalanBitmap* bm; std::vector<bool> m;
     explicit BitmapRun(Run& r) : R(r), bm(0) {
-        R.apiClass = "XalanBitmap"; R.apiMethods = "set,clear,toggle,isSet,clearAll,getSize,XalanBitmap";
+        R.apiClass = "XalanBitmap";
         const size_t n = (size_t)(R.plan.at("knobs").num("bits", 9) & 127);
         bm = new xalanc::XalanBitmap(R.mm, n); m.assign(n, false);
     }
@@ -127,7 +127,7 @@ struct CacheRun {
     typedef xalanc::XalanObjectCache<XalanDOMString, xalanc::DefaultCacheCreateFunctorMemMgr<XalanDOMString>, xalanc::DeleteFunctor<XalanDOMString>, xalanc::ClearCacheResetFunctor<XalanDOMString> > Cache;
     Run& R; Cache* c; std::vector<XalanDOMString*> avail, out; size_t created;
     explicit CacheRun(Run& r) : R(r), c(0), created(0) {
-        R.apiClass = "XalanObjectCache"; R.apiMethods = "get,release,reset,XalanObjectCache";
+        R.apiClass = "XalanObjectCache";
         c = new Cache(R.mm, (xalanc::XalanSize_t)(R.plan.at("knobs").num("init", 0) & 7));
     }
     void skip() { R.res.count("skipped-ops"); R.tr.ev("skip " + R.kind); }
